@@ -28,7 +28,7 @@ FAM = {
     "LogNormalNormFit": (["mu_norm", "sigma_norm"], {"mu_norm": (1.5, 8), "sigma_norm": (0.4, 2.5)}, {"mu_norm": 0, "sigma_norm": 1}),
     "ExpWeibull": (["alpha", "beta", "delta"], {"alpha": (0.8, 4), "beta": (0.9, 2.5), "delta": (0.7, 4)}, {"alpha": 1, "beta": 1, "delta": 1}),
     "GenGamma": (["m", "c", "lambda_"], {"m": (1.2, 4), "c": (0.8, 2.5), "lambda_": (0.3, 2)}, {"m": 1, "c": 1, "lambda_": 1}),
-    "VonMises": (["kappa", "mu"], {"kappa": (0.6, 6), "mu": (-1.5, 1.5)}, {"kappa": 1, "mu": 0}),
+    "VonMises": (["kappa", "mu"], {"kappa": (0.6, 6), "mu": (-6.0, 6.0)}, {"kappa": 1, "mu": 0}),
     "ScipyGamma": (["a", "loc", "scale"], {"a": (1.2, 5), "loc": (0.0, 1.0), "scale": (0.5, 3)}, {"a": 1, "loc": 0, "scale": 1}),
     "ScipyGumbel": (["loc", "scale"], {"loc": (-2, 5), "scale": (0.5, 3)}, {"loc": 0, "scale": 1}),
 }
